@@ -1,6 +1,6 @@
 (* C32/ProofsHistory.v — histories of announce / Process steps; rejection of forged and unlinked
    responses. *)
-From Coq Require Import NArith ZArith List Bool Lia.
+From Coq Require Import NArith ZArith List Bool Lia Permutation.
 From Common Require Import Outcome.
 From C32 Require Import Gen Model ModelSpec ProofsChain ProofsImport ProofsProcess.
 Import ListNotations.
@@ -52,13 +52,50 @@ Proof.
   set (resp := if q_dir q =? dir_desc then rev (r_resp r) else r_resp r) in *. clearbody resp.
   destruct (validate_fields true q resp) as [[| |]|] eqn:V; try discriminate.
   rewrite (validate_fields_not_forged _ _ V) in MR. cbn [orb] in MR.
-  apply andb_prop in MR. destruct MR as [MR NT]. apply andb_prop in MR. destruct MR as [RH AH].
+  apply andb_prop in MR. destruct MR as [RH NT].
   rewrite RH.
   assert (F : Forall (fun b => hash_matches b = true /\ d_header b <> None) resp).
-  { apply validate_fields_none in V. rewrite forallb_forall in AH. apply Forall_forall. intros b Hb.
-    rewrite Forall_forall in V. destruct (V b Hb) as (_ & _ & M). split; [exact M|].
-    specialize (AH b Hb). destruct (d_header b); [discriminate|discriminate]. }
+  { apply validate_fields_none in V. eapply Forall_impl; [|exact V].
+    intros b (A & _ & M). split; [exact M|exact (A RH)]. }
+  assert (NH : has_nil_header resp = false).
+  { unfold has_nil_header. destruct (existsb _ resp) eqn:E; [|reflexivity].
+    apply existsb_exists in E. destruct E as (b & Hb & E). rewrite Forall_forall in F.
+    destruct (F b Hb) as [_ H]. destruct (d_header b); [discriminate|congruence]. }
+  rewrite NH in NT. cbn [orb] in NT.
   rewrite (is_chain_true _ F). apply negb_true_iff in NT. rewrite NT. discriminate.
+Qed.
+
+(* the repaired validateResults never panics, whatever the result *)
+Lemma classify_no_panic bad r : classify true true true bad r <> VPanic.
+Proof.
+  unfold classify. destruct (negb (r_completed r)); [discriminate|].
+  set (q := r_req r).
+  set (resp := if q_dir q =? dir_desc then rev (r_resp r) else r_resp r). clearbody resp.
+  destruct (validate_fields true q resp) as [[| |]|] eqn:V; try discriminate.
+  destruct (req_field q f_header) eqn:RH.
+  - assert (FH : Forall (fun b => d_header b <> None) resp).
+    { apply validate_fields_none in V. eapply Forall_impl; [|exact V]. intros b (H & _). auto. }
+    destruct (is_chain resp) as [[|]|] eqn:IC; try discriminate.
+    + destruct (find (is_bad bad) resp) as [b|]; [destruct (d_header b); discriminate|].
+      destruct (true && _); discriminate.
+    + exfalso. eapply is_chain_some; eauto.
+  - destruct (find (is_bad bad) resp) as [b|]; [destruct (d_header b); discriminate|].
+    destruct (true && _); discriminate.
+Qed.
+
+Lemma validate_results_total bad rs : forall acc,
+  exists v, validate_results true true true bad rs acc = Ok v.
+Proof.
+  induction rs as [|r rs IH]; intro acc; [exists acc; reflexivity|]. cbn [validate_results].
+  pose proof (classify_no_panic bad r) as NP.
+  destruct (classify true true true bad r); try apply IH. congruence.
+Qed.
+
+Lemma accepted_total bad rs : exists acc, accepted true true true bad rs = Some acc.
+Proof.
+  induction rs as [|r rs [acc E]]; [exists []; reflexivity|]. cbn [accepted]. rewrite E.
+  pose proof (classify_no_panic bad r) as NP.
+  destruct (classify true true true bad r); try (eexists; reflexivity). congruence.
 Qed.
 
 Lemma rejections_of_accepted frg lg bad rs : forall acc,
@@ -136,6 +173,67 @@ Proof.
   destruct s; try contradiction; reflexivity.
 Qed.
 
+Lemma steps_body_forall steps : steps_body_b steps = true -> Forall step_wf steps.
+Proof.
+  unfold steps_body_b. intro H. rewrite forallb_forall in H. apply Forall_forall. intros s Hs.
+  specialize (H s Hs). destruct s; cbn; auto.
+  apply Forall_forall. rewrite forallb_forall in H. exact H.
+Qed.
+
+Lemma steps_wf_body steps : steps_wf_b steps = true -> steps_body_b steps = true.
+Proof.
+  unfold steps_wf_b, steps_body_b. intro H. rewrite forallb_forall in *. intros s Hs.
+  specialize (H s Hs). destruct s; auto. apply andb_prop in H. tauto.
+Qed.
+
+Definition no_error (o : option presult) : Prop :=
+  match o with Some r => pr_error r = false | None => True end.
+
+Lemma run_with_fixed_safe srt bad steps : keeps_forall srt -> forall st imported,
+  inv_state st imported -> Forall step_wf steps ->
+  exists outs stf imported',
+    run_with srt true true true bad st steps = (outs, false, stf)
+    /\ length outs = length steps
+    /\ history_ok_b imported steps (observe bad steps outs) = true
+    /\ Forall no_error outs
+    /\ events_ok_b imported (all_events outs) = (true, imported')
+    /\ inv_state stf imported'.
+Proof.
+  intro KS. induction steps as [|s steps IH]; intros st imported I W.
+  - exists [], st, imported. split; [reflexivity|]. split; [reflexivity|]. split; [reflexivity|].
+    split; [constructor|]. split; [reflexivity|exact I].
+  - inversion W as [|? ? Ws Wr]; subst. cbn [run_with].
+    destruct s as [h|h|n|rs]; cbn [do_step_with].
+    + assert (I' : inv_state (mkps (p_env st) (new_incomplete (p_un st) h) (p_queue st)) imported).
+      { destruct I as [IU IK]. split; [now apply new_incomplete_ok|exact IK]. }
+      destruct (IH _ _ I' Wr) as (outs & stf & imp' & E & L & H & NE & EA & IF). rewrite E.
+      exists (None :: outs), stf, imp'. split; [reflexivity|]. split; [cbn [length]; now rewrite L|].
+      cbn [observe]. rewrite history_ok_skip by exact Logic.I.
+      split; [exact H|]. split; [constructor; [exact Logic.I|exact NE]|]. split; [exact EA|exact IF].
+    + assert (I' : inv_state (mkps (mkenv (h :: known (p_env st)) (fin (p_env st))) (p_un st) (p_queue st)) imported).
+      { destruct I as [IU IK]. split; [exact IU|]. intros x Hx. cbn [p_env].
+        rewrite knows_cons. rewrite (IK x Hx). apply orb_true_r. }
+      destruct (IH _ _ I' Wr) as (outs & stf & imp' & E & L & H & NE & EA & IF). rewrite E.
+      exists (None :: outs), stf, imp'. split; [reflexivity|]. split; [cbn [length]; now rewrite L|].
+      cbn [observe]. rewrite history_ok_skip by exact Logic.I.
+      split; [exact H|]. split; [constructor; [exact Logic.I|exact NE]|]. split; [exact EA|exact IF].
+    + assert (I' : inv_state (mkps (mkenv (known (p_env st)) n) (p_un st) (p_queue st)) imported).
+      { destruct I as [IU IK]. split; [exact IU|]. intros x Hx. cbn [p_env]. rewrite knows_fin. now apply IK. }
+      destruct (IH _ _ I' Wr) as (outs & stf & imp' & E & L & H & NE & EA & IF). rewrite E.
+      exists (None :: outs), stf, imp'. split; [reflexivity|]. split; [cbn [length]; now rewrite L|].
+      cbn [observe]. rewrite history_ok_skip by exact Logic.I.
+      split; [exact H|]. split; [constructor; [exact Logic.I|exact NE]|]. split; [exact EA|exact IF].
+    + pose proof Ws as Wrs. cbn [step_wf] in Wrs.
+      destruct (process_with_fixed_ok srt bad st rs imported KS I Wrs) as (r & imp1 & EP & ER & EO & I').
+      rewrite EP. destruct (IH _ _ I' Wr) as (outs & stf & imp' & E & L & H & NE & EA & IF). rewrite E.
+      exists (Some r :: outs), stf, imp'. split; [reflexivity|]. split; [cbn [length]; now rewrite L|].
+      cbn [observe history_ok_b]. rewrite EO.
+      destruct (accepted_some bad rs Wrs) as [acc EA']. rewrite EA'.
+      rewrite (rejections_of_accepted _ _ _ _ _ EA'). cbn [andb].
+      split; [exact H|]. split; [constructor; [exact ER|exact NE]|]. split; [|exact IF].
+      cbn [all_events flat_map]. fold (all_events outs). rewrite events_ok_app, EO. exact EA.
+Qed.
+
 Lemma run_fixed_safe bad steps : forall st imported,
   inv_state st imported -> Forall step_wf steps ->
   exists outs stf,
@@ -143,34 +241,40 @@ Lemma run_fixed_safe bad steps : forall st imported,
     /\ length outs = length steps
     /\ history_ok_b imported steps (observe bad steps outs) = true.
 Proof.
-  induction steps as [|s steps IH]; intros st imported I W.
-  - exists [], st. repeat split; reflexivity.
-  - inversion W as [|? ? Ws Wr]; subst. cbn [run].
-    destruct s as [h|h|n|rs]; cbn [do_step].
-    + assert (I' : inv_state (mkps (p_env st) (new_incomplete (p_un st) h) (p_queue st)) imported).
-      { destruct I as [IU IK]. split; [now apply new_incomplete_ok|exact IK]. }
-      destruct (IH _ _ I' Wr) as (outs & stf & E & L & H). rewrite E.
-      exists (None :: outs), stf. split; [reflexivity|]. split; [cbn [length]; now rewrite L|].
-      cbn [observe]. rewrite history_ok_skip by exact Logic.I. exact H.
-    + assert (I' : inv_state (mkps (mkenv (h :: known (p_env st)) (fin (p_env st))) (p_un st) (p_queue st)) imported).
-      { destruct I as [IU IK]. split; [exact IU|]. intros x Hx. cbn [p_env].
-        rewrite knows_cons. rewrite (IK x Hx). apply orb_true_r. }
-      destruct (IH _ _ I' Wr) as (outs & stf & E & L & H). rewrite E.
-      exists (None :: outs), stf. split; [reflexivity|]. split; [cbn [length]; now rewrite L|].
-      cbn [observe]. rewrite history_ok_skip by exact Logic.I. exact H.
-    + assert (I' : inv_state (mkps (mkenv (known (p_env st)) n) (p_un st) (p_queue st)) imported).
-      { destruct I as [IU IK]. split; [exact IU|]. intros x Hx. cbn [p_env]. rewrite knows_fin. now apply IK. }
-      destruct (IH _ _ I' Wr) as (outs & stf & E & L & H). rewrite E.
-      exists (None :: outs), stf. split; [reflexivity|]. split; [cbn [length]; now rewrite L|].
-      cbn [observe]. rewrite history_ok_skip by exact Logic.I. exact H.
-    + pose proof Ws as Wrs. cbn [step_wf] in Wrs.
-      destruct (process_fixed_ok bad st rs imported I Wrs) as (r & imp' & EP & ER & EO & I').
-      rewrite EP. destruct (IH _ _ I' Wr) as (outs & stf & E & L & H). rewrite E.
-      exists (Some r :: outs), stf. split; [reflexivity|]. split; [cbn [length]; now rewrite L|].
-      cbn [observe history_ok_b]. rewrite EO.
-      destruct (accepted_some bad rs Wrs) as [acc EA]. rewrite EA.
-      rewrite (rejections_of_accepted _ _ _ _ _ EA). cbn [andb]. exact H.
+  intros st imported I W.
+  destruct (run_with_fixed_safe sort_frags bad steps sort_frags_keeps st imported I W)
+    as (outs & stf & imp' & E & L & H & _). exists outs, stf. auto.
 Qed.
 
 Lemma init_inv root : inv_state (init_state root) [].
 Proof. split; [split; constructor|]. intros s []. Qed.
+
+(* ---------------------------------------------------------------- the statements of Properties.v *)
+Lemma parents_first_any_sort :
+  forall srt : list (list bdata) -> list (list bdata), (forall l, Permutation (srt l) l) ->
+  forall bad root steps, steps_body_b steps = true ->
+  exists outs stf,
+    run_with srt true true true bad (init_state root) steps = (outs, false, stf)
+    /\ length outs = length steps
+    /\ Forall (fun o => match o with Some r => pr_error r = false | None => True end) outs
+    /\ Forall (fun e => match e with EOrphan _ | EDup _ => False | _ => True end) (all_events outs)
+    /\ NoDup (imports_of (all_events outs))
+    /\ history_ok_b [] steps (observe bad steps outs) = true.
+Proof.
+  intros srt HP bad root steps W.
+  destruct (run_with_fixed_safe srt bad steps (perm_keeps_forall srt HP) (init_state root) []
+              (init_inv root) (steps_body_forall steps W))
+    as (outs & stf & imp' & E & L & H & NE & EA & _).
+  destruct (events_ok_sound _ _ _ EA) as (A & B & _).
+  exists outs, stf. repeat split; assumption.
+Qed.
+
+Lemma validate_never_panics : forall bad rs,
+  (forall r, classify true true true bad r <> VPanic)
+  /\ (exists v, validate_results true true true bad rs (mkval [] [] []) = Ok v)
+  /\ (exists acc, accepted true true true bad rs = Some acc /\ rejections_ok_b rs acc = true).
+Proof.
+  intros bad rs. split; [intro r; apply classify_no_panic|]. split; [apply validate_results_total|].
+  destruct (accepted_total bad rs) as [acc E]. exists acc. split; [exact E|].
+  exact (rejections_of_accepted _ _ _ _ _ E).
+Qed.
